@@ -9,3 +9,4 @@ open PebblesVerif
 #print axioms C01_eval_node_lookup
 #print axioms C01_sanitize_expands_spreads
 #print axioms C01_helpers_only_prepended
+#print axioms C01_one_hop
